@@ -1026,6 +1026,52 @@ def tgt(n: size, k: index, x: f32[n]):
         if k < n:
             x[k] = 1.0
 ''',
+    # --- facts of one statement must not leak into its siblings: a loop's range predicate `lo <= i < hi` holds only
+    #     INSIDE the loop; next to a zero-trip loop it says nothing (seeded change C03_1 asserted it in the enclosing scope)
+    "zero-trip-sibling-access": '''
+@proc
+def tgt(n: size, x: f32[n]):
+    x[1] = 0.0
+    for i in seq(0, n - 1):
+        x[i] = x[i + 1]
+''',
+    "zero-trip-sibling-access-after": '''
+@proc
+def tgt(n: size, x: f32[n]):
+    for i in seq(0, n - 1):
+        x[i] = x[i + 1]
+    x[1] = 0.0
+''',
+    "zero-trip-sibling-alloc": '''
+@proc
+def tgt(k: index, x: f32[8]):
+    assert 0 <= k and k <= 8
+    tmp: f32[k]
+    for i in seq(0, k):
+        tmp[i] = x[i]
+''',
+    "zero-trip-sibling-call-size": '''
+@proc
+def tgt(n: size, x: f32[n]):
+    fill(n - 1, x[1:n])
+    for i in seq(0, n - 1):
+        x[i] = x[i + 1]
+''',
+    "zero-trip-sibling-in-branch": '''
+@proc
+def tgt(n: size, m: size, x: f32[n]):
+    if m > 2:
+        for i in seq(0, n - 1):
+            x[i] = 1.0
+        x[1] = 2.0
+''',
+    "loop-fact-stays-inside-ok": '''
+@proc
+def tgt(n: size, x: f32[n]):
+    for i in seq(0, n - 1):
+        x[i + 1] = x[i]
+    x[n - 1] = 0.0
+''',
     "extern-arg-read-oob": '''
 @proc
 def tgt(x: f32[4], y: f32[4]):
